@@ -86,6 +86,10 @@ impl CleanMarkerStore {
         fs::write(&tmp_path, &bytes)?;
         fs::File::open(&tmp_path)?.sync_all()?;
         fs::rename(&tmp_path, path)?;
+        // Make the rename itself durable: sync the directory that holds the marker file
+        if let Some(dir) = std::path::Path::new(path).parent().filter(|d| !d.as_os_str().is_empty()) {
+            fs::File::open(dir)?.sync_all()?;
+        }
         Ok(())
     }
 }
